@@ -94,18 +94,24 @@ func VerifC12Options(maxSet int) {
 		AfterContext:  c12Ints[verifrt.Choose("after", len(c12Ints))],
 		MaxCount:      c12Ints[verifrt.Choose("max", len(c12Ints))],
 	}
-	set := 1 // serverless is always sent
-	for _, b := range []bool{args.Quiet, args.Plain, args.BeforeContext != 0, args.AfterContext != 0, args.MaxCount != 0} {
+	// with or without a server: serverless=true is sent like any other switch
+	c12Remote = verifrt.Bool("remote-server")
+	set := 0
+	for _, b := range []bool{!c12Remote, args.Quiet, args.Plain, args.BeforeContext != 0, args.AfterContext != 0, args.MaxCount != 0} {
 		if b {
 			set++
 		}
 	}
 	verifrt.Assume(set <= maxSet)
 	c12RoundTrip(args, 0)
+	c12Remote = false
 	if set >= 3 {
 		verifrt.Reach("three-options")
 	}
 }
+
+// c12Remote: the session is one with a real server (the serverless switch is not sent)
+var c12Remote bool
 
 func c12RoundTrip(args config.Args, mode int) {
 	pat := args.RegexStr
@@ -124,6 +130,7 @@ func c12RoundTrip(args config.Args, mode int) {
 			args.Mode = omode.GrepClient
 			c := GrepClient{baseClient: baseClient{Args: args}}
 			c.init()
+			c.Args.Serverless = !c12Remote
 			cmds, cre = c.makeCommands(), c.Regex
 		case 1:
 			args.Mode = omode.TailClient
@@ -177,7 +184,7 @@ func c12RoundTrip(args config.Args, mode int) {
 	// the options
 	verifrt.Assert(g.Ltx == args.LContext, "before/after/max differ between client and server")
 	plain, quiet, serverless := sh.VerifFlags()
-	verifrt.Assert(plain == args.Plain && quiet == args.Quiet && serverless == args.Serverless, "output-mode options differ between client and server")
+	verifrt.Assert(plain == args.Plain && quiet == args.Quiet && serverless == (args.Serverless && !c12Remote), "output-mode options differ between client and server")
 	verifrt.Assert(g.Glob == "/var/log/x.log", "file argument differs")
 	// grep and cat both run as cat-type reads on the server (which of the two mode
 	// constants the server uses internally is its own business); tail follows
